@@ -8,6 +8,7 @@ Stubs: builtin id() inside synkit modules (SimAllocator), the `time` module obje
 from __future__ import annotations
 
 import copy
+import json
 from typing import Any, Dict, Iterable, List, Optional, Tuple
 
 import networkx as nx
@@ -35,7 +36,7 @@ FAULT_OPS = ("alloc", "clock_tick", "clock_jump", "clock_freeze")
 # (probes "epoch_address_reused" / "ephemeral_id" only fire if the code under test calls id() on temporaries,
 #  which the repaired tree no longer does; they are kept for mutants and not required to be non-zero)
 PROBES = ["refinement_rounds_ge_2", "timeout_fired", "clock_went_backwards",
-          "symmetric_family", "regular_graph_zoo", "analyser_attribute_rekeyed", "more_than_1000_automorphisms", "same_hypergraph_object_reanalysed", "network_edited_between_analyses", "call_relying_on_signature_defaults", "analyser_object_reused", "depth_limited_call", "wl_checked", "twin_compared", "neighbour_compared", "flagged_partial_answer", "slow_clock_default_timeout"]
+          "symmetric_family", "regular_graph_zoo", "analyser_attribute_rekeyed", "enumeration_suspended_while_other_call_runs", "canon_compared_with_another_interpreter", "more_than_1000_automorphisms", "same_hypergraph_object_reanalysed", "network_edited_between_analyses", "call_relying_on_signature_defaults", "analyser_object_reused", "depth_limited_call", "wl_checked", "twin_compared", "neighbour_compared", "flagged_partial_answer", "slow_clock_default_timeout"]
 REAL = ["synkit.CRN.Topo.wl_canon.WLCanonicalizer / wl_canonical (sound checks only: isomorphic to view, colour classes coarsen true orbits, estimate >= true count, twin histograms equal)",
         "synkit.CRN.Topo.canon.CRNCanonicalizer (_init_part/_sig/_refine/_label/_search/_canon, summary/graph/orbits)",
         "synkit.CRN.Topo.automorphism.CRNAutomorphism.summary / has_nontrivial_automorphism / detect_automorphisms",
@@ -293,6 +294,8 @@ def generate(seed: int, tier: str = "quick") -> Dict[str, Any]:
                         "bare": rng.random() < 0.4})
             if rng.random() < 0.08:
                 ops[-1]["rekey"] = True
+            if rng.random() < 0.05:
+                ops[-1]["peer"] = True
         else:
             ops.append({"op": "aut", "s": s(), "which": which, "flags": list(flags), "timeout": (tmo if rng.random() < 0.7 else "default"),
                         "max_count": rng.choice([100, 1000, 5000, 3]),
@@ -300,6 +303,10 @@ def generate(seed: int, tier: str = "quick") -> Dict[str, Any]:
                         "bare": rng.random() < 0.4})
             if ops[-1]["api"] == "detect" and rng.random() < 0.3:
                 ops[-1]["max_count"] = None
+            if ops[-1]["api"] == "iter" and rng.random() < 0.4:
+                # two consumers of one analyser: the lazy enumeration is suspended while another call runs on the same object
+                ops[-1]["timeout"] = None
+                ops[-1]["interleave"] = {"k": rng.choice([0, 1, 1, 2, 3]), "other": rng.choice(["iter_full", "iter_part", "nontrivial", "summary"])}
     # follow-ups: the same analyser object serves a limited call and then an unlimited one (and vice versa)
     out_ops: List[Dict[str, Any]] = []
     for o in ops:
@@ -398,6 +405,35 @@ def scramble(obj: Any, depth: int = 0) -> None:
             obj.remove_nodes_from(list(obj.nodes))
         except Exception:
             pass
+
+
+_PEERS: Dict[int, Any] = {}
+
+
+def peer_canon(net: Net, flags: List[bool]) -> Optional[Dict[str, Any]]:
+    """Ask the peer interpreter (another PYTHONHASHSEED) for the canonical form of the same network."""
+    import os
+    import subprocess
+    import sys
+    pid = os.getpid()
+    p = _PEERS.get(pid)
+    if p is None or p.poll() is not None:
+        env = dict(os.environ)
+        env["PYTHONHASHSEED"] = str((int(env.get("PYTHONHASHSEED", "0") or 0) + 7919) % 4294967296)
+        here = os.path.dirname(os.path.dirname(os.path.abspath(__file__)))
+        p = subprocess.Popen([sys.executable, os.path.join(here, "peer.py")], stdin=subprocess.PIPE, stdout=subprocess.PIPE,
+                             stderr=subprocess.DEVNULL, env=env, text=True, bufsize=1)
+        _PEERS.clear()
+        _PEERS[pid] = p
+        if not p.stdout.readline():
+            return None
+    try:
+        p.stdin.write(json.dumps({"net": net, "flags": [bool(f) for f in flags]}) + "\n")
+        p.stdin.flush()
+        line = p.stdout.readline()
+    except (BrokenPipeError, OSError):
+        return None
+    return json.loads(line) if line else None
 
 
 def canon_sig(Gc: nx.DiGraph, bipartite: bool, include_stoich: bool) -> Any:
@@ -684,6 +720,16 @@ def _run(case: Dict[str, Any], sim: Sim, world: World, clock: SimClock) -> None:
             sim.state(("canon", bip, sto, which, flagged, T["count"] if not T["capped"] else -1, Gv.number_of_nodes(), Gv.number_of_edges()))
             sim.event("canon", {"which": which, "api": op["api"], "flagged": flagged,
                                 "count": (s["automorphism_count"] if s else None), "sig": (canon_sig(s["canon_graph"], bip, sto) if (s and not flagged) else None)})
+            if op.get("peer") and unlimited and s is not None and not flagged and not T["capped"] and T["count"] <= 200:
+                # the canonical form is what gets stored and compared later - by another process
+                ans = peer_canon(nets[which], [bip, sto, iid])
+                if ans is None or "error" in ans or ans.get("early"):
+                    sim.probe("peer_interpreter_unavailable")
+                else:
+                    sim.probe("canon_compared_with_another_interpreter")
+                    if ans["sig"] != repr(got):
+                        raise Violation(PROP, site, "canon_differs_across_processes", cond_base + "; interpreter with another hash salt",
+                                        {"net": nets[which], "here": repr(got), "there": ans["sig"]})
             if op.get("rekey") and bip and unlimited and s is not None and not flagged and not T["capped"]:
                 # the attribute selection is a public attribute of the object: a caller narrows it on a warmed object,
                 # asks again, widens it back, asks again
@@ -715,7 +761,30 @@ def _run(case: Dict[str, Any], sim: Sim, world: World, clock: SimClock) -> None:
             eff_tmo: Optional[float]
             if api == "iter":
                 it_tmo = None if tmo == "default" else tmo
-                maps_ = list(a.iter(max_count=mc, timeout_sec=it_tmo))
+                il = op.get("interleave")
+                if il and it_tmo is None:
+                    sim.probe("enumeration_suspended_while_other_call_runs")
+                    it1 = a.iter(max_count=mc, timeout_sec=None)
+                    maps_ = []
+                    for _ in range(il["k"]):
+                        try:
+                            maps_.append(next(it1))
+                        except StopIteration:
+                            break
+                    held = None
+                    if il["other"] == "iter_full":
+                        list(a.iter(max_count=mc, timeout_sec=None))
+                    elif il["other"] == "iter_part":
+                        held = a.iter(max_count=mc, timeout_sec=None)
+                        next(held, None)
+                    elif il["other"] == "nontrivial":
+                        a.has_nontrivial_automorphism(timeout_sec=None)
+                    else:
+                        a.summary(max_count=50, timeout_sec=None)
+                    maps_.extend(it1)
+                    del held
+                else:
+                    maps_ = list(a.iter(max_count=mc, timeout_sec=it_tmo))
                 elapsed = clock.window_elapsed()
                 Gv = a.G
                 check_view(which, H, Gv)
